@@ -184,13 +184,10 @@ func c11R1(c *Ctx) {
 	c.Floor("C11.R1", "keep = true assignments", 2, nTrue)
 	c.Check(nFalse <= 1, "C11.R1", "single expiry path", p.Pos(fn.Decl), fn.Key(), "at most one keep = false", fmt.Sprintf("%d", nFalse))
 	// 'now' and 'duration' are what they seem: now := time.Now(), duration := ParseDuration(ReleaseAfter)
-	okNow, okDur := false, false
+	okNow, okDur := afterComparesWithNow(fn), false
 	ast.Inspect(fn.Decl.Body, func(nd ast.Node) bool {
 		if as, ok := nd.(*ast.AssignStmt); ok && as.Tok == token.DEFINE && len(as.Rhs) == 1 {
 			src := exprString(as.Rhs[0])
-			if len(as.Lhs) == 1 && exprString(as.Lhs[0]) == "now" && src == "time.Now()" {
-				okNow = true
-			}
 			if len(as.Lhs) == 2 && strings.HasPrefix(src, "time.ParseDuration(") && strings.Contains(derefString(fn, as.Rhs[0]), ".ReleaseAfter") {
 				okDur = true
 			}
@@ -322,7 +319,12 @@ func c11R2(c *Ctx) {
 	c.Check(cloud == 0, "C11.R2", "reConfig makes no cloud call", p.Pos(reconf.Decl), reconf.Key(), "rebinding keeps the recorded interfaces", fmt.Sprintf("%d cloud calls", cloud))
 	// reConfig is reached for an Unbind record (facts at the call site)
 	for _, call := range p.CallsTo([]*FuncInfo{pc}, reconf.Obj) {
-		c.Require("C11.R2", "rebinding starts from an unbound record", pc, call.Call, exprString(call.Call.Args[2])+".Status.Phase == "+constLit(p, apiPkg, "ENIPhaseUnbind"), nil)
+		rec := argByNamedType(info, call.Call, "PodENI") // the record argument, wherever it stands
+		if rec == nil {
+			c.Undec("C11.R2", "rebinding starts from an unbound record", p.Pos(call.Call), pc.Key(), "reConfig(…, <record>, …)", "no single *PodENI argument")
+			continue
+		}
+		c.Require("C11.R2", "rebinding starts from an unbound record", pc, call.Call, exprString(rec)+".Status.Phase == "+constLit(p, apiPkg, "ENIPhaseUnbind"), nil)
 	}
 	// attachENI iterates the stored allocations and attaches their recorded ids
 	att := p.Func(podENICtlPkg, "ReconcilePodENI.attachENI")
@@ -513,22 +515,8 @@ func c11R3(c *Ctx) {
 		return true
 	})
 	c.Check(okGrace, "C11.R3", "grace period is at least ten minutes", p.Pos(fn.Decl), fn.Key(), "created.Add(G) with constant G ≥ 10m", "no such constant")
-	// now := time.Now() once, before the loop
-	okNow := false
-	for _, d := range func() []varDef {
-		var out []varDef
-		ast.Inspect(fn.Decl.Body, func(nd ast.Node) bool {
-			if as, ok := nd.(*ast.AssignStmt); ok && len(as.Lhs) == 1 && exprString(as.Lhs[0]) == "now" {
-				out = append(out, varDef{as, as.Rhs[0], as.Tok})
-			}
-			return true
-		})
-		return out
-	}() {
-		if exprString(d.rhs) == "time.Now()" {
-			okNow = true
-		}
-	}
+	// the time the age is compared with is the current time (whatever the variable is called)
+	okNow := afterComparesWithNow(fn)
 	c.Check(okNow, "C11.R3", "age is measured against the current time", p.Pos(fn.Decl), fn.Key(), "now := time.Now()", "not found")
 	// tag filter literal
 	okTags := false
@@ -929,4 +917,52 @@ func c11R9(c *Ctx) {
 		return true
 	})
 	c.Floor("C11.R9", "refusals guarded by the trunk flag", 1, n)
+}
+
+// isCurrentTime: x is time.Now() or a local every definition of which is time.Now().
+func isCurrentTime(fn *FuncInfo, x ast.Expr) bool {
+	info := fn.Info()
+	isNow := func(e ast.Expr) bool {
+		call, ok := ast.Unparen(e).(*ast.CallExpr)
+		if !ok {
+			return false
+		}
+		f := Callee(info, call)
+		return f != nil && f.Pkg() != nil && f.Pkg().Path() == "time" && f.Name() == "Now"
+	}
+	if isNow(x) {
+		return true
+	}
+	v, ok := identObj(info, x).(*types.Var)
+	if !ok || v.IsField() {
+		return false
+	}
+	ds := varDefs(fn, v)
+	if len(ds) == 0 {
+		return false
+	}
+	for _, d := range ds {
+		if d.rhs == nil || !isNow(d.rhs) {
+			return false
+		}
+	}
+	return true
+}
+
+// afterComparesWithNow: fn compares times with After, and every such comparison is against the current time.
+func afterComparesWithNow(fn *FuncInfo) bool {
+	info := fn.Info()
+	n, ok := 0, true
+	ast.Inspect(fn.Decl.Body, func(nd ast.Node) bool {
+		if call, isCall := nd.(*ast.CallExpr); isCall && len(call.Args) == 1 {
+			if sel, isSel := ast.Unparen(call.Fun).(*ast.SelectorExpr); isSel && sel.Sel.Name == "After" && typeIs(info.TypeOf(call.Args[0]), "time", "Time") {
+				n++
+				if !isCurrentTime(fn, call.Args[0]) {
+					ok = false
+				}
+			}
+		}
+		return true
+	})
+	return n > 0 && ok
 }
